@@ -102,6 +102,7 @@ func runC18(c *Ctx) {
 		"Contract: FitRef!ApplyEnhance / ExpandRecord / ExpandEvent (component table transcribed from the property statement and the profile's field numbers); accumulators restart with every file",
 		"named deviations (known findings) are matched exactly: the value the current code is known to produce (KF_* operators in Trace_Decode); any other value is a violation",
 		"a destination that the record also carries explicitly with a different value is left unpinned",
+		"ComponentsImpl.tla transcribes expandComponents / accumu.go with one switch per recorded deviation: TLC shows Impl = Contract with the switches off and refutes each switch alone; the sequences it explores are replayed through DecodeChained and compared value for value with the as-implemented model (Trace_Components; differences there are model drift unless the Contract comparison also fails)",
 	}
 	rng := newRng(c.Seed)
 	hosts := []int{4, 6, 20, 34} // activity, course, activity summary, segment
@@ -128,6 +129,13 @@ func runC18(c *Ctx) {
 	calls = append(calls, corpusCalls(p, c, &id, c.pick(60000, 1<<30), CallOpts{})...)
 	// the accumulator deviation model needs the calls of one process in one batch, in order
 	mm := c.validateCalls(p, sch, calls, 1)
+	// ComponentsImpl: Impl = Contract without the recorded deviations, each
+	// deviation refuted alone, and every explored token sequence replayed
+	// (each replayed call starts from fresh process state: any batching)
+	scripts := componentsMC(c, c.pick(3, 4))
+	compCalls := componentsReplay(c, p, sch, scripts, &id)
+	mm = append(mm, c.validateCalls(p, sch, compCalls, 14)...)
+	calls = append(calls, compCalls...)
 	c.reportFamily(p, mm, nil)
 	c.verdictStats(calls)
 	c.Cov["evaluations"] = len(calls)
